@@ -109,7 +109,7 @@ pub fn run(out: &mut Out, tier: &str, rng: &mut Rng) {
                     let got = rt.block_on(async {
                         let mut net = ControlNetwork::bind("vcan17f", &name).expect("bind on emulated bus").with_filter(f);
                         bus.inject(&Bus::raw(idraw | 0x8000_0000, 8, &[1, 2, 3, 4, 5, 6, 7, 8]));
-                        tokio::time::timeout(std::time::Duration::from_millis(300), net.recv()).await.is_ok()
+                        tokio::time::timeout(std::time::Duration::from_millis(400), net.recv()).await.is_ok()
                     });
                     out.count(&format!("fnet {} items={}", if accept { "A" } else { "R" }, items.len()));
                     out.case(&format!("fnet {} {} {:08X}", if accept { "A" } else { "R" }, txt, idraw), if got { "1" } else { "0" }, !items.is_empty());
